@@ -59,6 +59,9 @@ pub fn prop(tier: Tier, seed: u64) -> Prop {
             let splace = PLACES[(d[2] + 3) % PLACES.len()];
             ctx.sample(|| json!({"operation": format!("{:?}", opk), "src": [sw, sh], "dst": [dw0, dh0], "dst_placement": format!("{:?}", place), "src_placement": format!("{:?}", splace),
                 "inside": "13 pixel types x back-ends x 11 source kinds x 11 destination kinds (pairwise) x {dynamic, typed} entry"}));
+            if ctx.describe_only {
+                return;
+            }
             let same_size = !matches!(opk, OpK::Resize(..));
             let (dw, dh) = if same_size { (sw, sh) } else { (dw0, dh0) };
             for (pi, pt) in ALL_PT.iter().copied().enumerate() {
